@@ -151,12 +151,21 @@ def takeUntil (met : Nat → Bool) : Nat → List Tbl → List Tbl × Bool
       (t :: r.1, r.2)
 
 /-- the level loop of `majorCompaction` over `AscendLevels(1)` (deepest non-base level first). Once the goal is met
-no further level is visited (`break pickTables`). -/
-def majorPick (met : Nat → Bool) : Nat → List (List Tbl) → List Tbl
+no further level is visited (`break pickTables`). `order` is what `slices.SortedFunc(level.AllTables(), OrderOldToNew)`
+returns: some arrangement of the level by age (the sort is not stable, so tables of equal age come in any order). -/
+def majorPickWith (order : List Tbl → List Tbl) (met : Nat → Bool) : Nat → List (List Tbl) → List Tbl
   | _, [] => []
   | n, l :: ls =>
-    let r := takeUntil met n (sortByAge l)
-    if r.2 then r.1 else r.1 ++ majorPick met (n + r.1.length) ls
+    let r := takeUntil met n (order l)
+    if r.2 then r.1 else r.1 ++ majorPickWith order met (n + r.1.length) ls
+
+/-- with the stable arrangement (what the sort gives for up to 12 tables, and whenever ages are distinct) -/
+def majorPick (met : Nat → Bool) (n : Nat) (ls : List (List Tbl)) : List Tbl := majorPickWith sortByAge met n ls
+
+/-- an arrangement of every level by age: a permutation in which ages never decrease -/
+structure OrderOK (order : List Tbl → List Tbl) : Prop where
+  perm : ∀ l, (order l).Perm l
+  sorted : ∀ l, (order l).Pairwise (fun a b => age a ≤ age b)
 
 /-- cut a run into pieces of the given lengths (a length 0 counts as 1, the rest is the last piece): every list of
 cuts gives non-empty pieces whose concatenation is the run. An empty run gives one empty piece: `WriteRun` writes a
@@ -173,10 +182,12 @@ def chunk (cuts : List Nat) (r : Run) : List Run := if r.isEmpty then [[]] else 
 /-- `kv.MergeEntries` over the scans of the tables in the given order, written by `WriteRun` -/
 def mergeWrite (o : Oracle) (ts : List Tbl) : List Run := chunk o.cuts (mergeAll (ts.map (·.run)))
 
-def majorCompaction (L : Levels) (o : Oracle) : ChangeSet :=
-  let picked := majorPick o.goalMet 0 L.dropLast.reverse
+def majorCompactionWith (order : List Tbl → List Tbl) (L : Levels) (o : Oracle) : ChangeSet :=
+  let picked := majorPickWith order o.goalMet 0 L.dropLast.reverse
   let tablesToMerge := picked ++ L.getLastD []
   { rm := tablesToMerge.map (·.id), lvl := L.length - 1, add := mergeWrite o tablesToMerge }
+
+def majorCompaction (L : Levels) (o : Oracle) : ChangeSet := majorCompactionWith sortByAge L o
 
 /-- the loop `for c.minorCompactionLevel < len(levels.levels)-1` of `minorCompaction`; `fuel` bounds the iterations -/
 def minorDeep (L : Levels) (o : Oracle) : Nat → Nat → Option ChangeSet × Compactor
@@ -195,11 +206,14 @@ def minorCompaction (c : Compactor) (L : Levels) (o : Oracle) : Option ChangeSet
     (some { rm := inputTables.map (·.id), lvl := 1, add := mergeWrite o inputTables }, { minorLevel := 1 })
   else minorDeep L o L.length c.minorLevel
 
-/-- `Compactor.Compact` -/
-def compact (c : Compactor) (L : Levels) (o : Oracle) : Option ChangeSet × Compactor :=
+/-- `Compactor.Compact`, with the arrangement by age the sort returns as a parameter -/
+def compactWith (order : List Tbl → List Tbl) (c : Compactor) (L : Levels) (o : Oracle) : Option ChangeSet × Compactor :=
   if c.minorLevel = 0 ∧ o.l0Few then (none, c)
-  else if o.overAmp then (some (majorCompaction L o), c)
+  else if o.overAmp then (some (majorCompactionWith order L o), c)
   else minorCompaction c L o
+
+/-- `Compactor.Compact` -/
+def compact (c : Compactor) (L : Levels) (o : Oracle) : Option ChangeSet × Compactor := compactWith sortByAge c L o
 
 /-! ### The picker as it was before the repair of D22 (kept as the regression witness) -/
 
@@ -230,6 +244,17 @@ level 0 loaded from several checkpoints still satisfies (`recovery.LoadCheckpoin
 lists; sources own disjoint key groups; sequence numbers of different sources are unrelated). -/
 def L0KeyAgeOrdered (L : Levels) : Prop :=
   (L.headD []).Pairwise (fun a b => ¬ DisjointKeys a.run b.run → age a < age b)
+
+/-- The thresholds are not negative and the level-0 trigger is at least 1 (`dkv.New` turns 0 into
+`Facts.dkvDefaultL0Trigger`): a "big enough" answer is only given about something that holds a table. Needed only
+to know that a change set removes at least one table (an empty pick would make `WriteRun` add one empty table). -/
+structure OracleSane (c : Compactor) (L : Levels) (o : Oracle) : Prop where
+  /-- `L0RunNumCompactionTrigger ≥ 1` -/
+  l0 : c.minorLevel = 0 → o.l0Few = false → L.getD 0 [] ≠ []
+  /-- `SmallestLevelSize ≥ 0`: a level whose `ByteSize` exceeds `SmallestLevelSize*Num` holds a table -/
+  level : ∀ i, o.levelOver i = true → L.getD i [] ≠ []
+  /-- `MaxSizeAmplificationPercent ≥ 0`: `Percentage() > Max` needs bytes above the base level -/
+  amp : o.overAmp = true → L.dropLast.flatten ≠ []
 
 instance (L : Levels) : Decidable (L0AgeOrdered L) := by unfold L0AgeOrdered; infer_instance
 instance (L : Levels) : Decidable (L0KeyAgeOrdered L) := by unfold L0KeyAgeOrdered; infer_instance
@@ -287,5 +312,73 @@ inductive Reach : Sys → List Act → Sys → Prop
 def Act.isFlush : Act → Bool
   | .flush _ => true
   | _ => false
+
+/-! ## The compactor inside the DKV transition system of C07 -/
+
+def isCompact : Lsm.Act → Bool
+  | .compact .. => true
+  | _ => false
+
+/-- `dkv.DB`: the state of the DKV system (`Lsm.State`), the compactor's cursor and the change set the compaction
+task has computed and not yet committed -/
+structure DB where
+  s : Lsm.State := {}
+  c : Compactor := {}
+  pending : Option ChangeSet := none
+
+inductive DAct where
+  /-- any action of the DKV system except a compaction commit: put, delete, rotate, flush begin/commit, read phases -/
+  | fg (a : Lsm.Act)
+  /-- the compaction task calls `Compact` on the current level list (arbitrary answers to the size questions) -/
+  | compactBegin (o : Oracle)
+  /-- under `db.mu`: the pending change set is applied; this is `Lsm.step (.compact ..)`, guarded by `Lsm.safeCS` -/
+  | compactCommit
+
+def DB.step (d : DB) : DAct → Option DB
+  | .fg a => if isCompact a then none else (Lsm.step d.s a).map (fun s' => { d with s := s' })
+  | .compactBegin o =>
+    match d.pending with
+    | some _ => none
+    | none => some { d with c := (compact d.c d.s.levels o).2, pending := (compact d.c d.s.levels o).1 }
+  | .compactCommit =>
+    match d.pending with
+    | none => none
+    | some cs => (Lsm.step d.s (.compact cs.rm cs.lvl cs.add)).map (fun s' => { d with s := s', pending := none })
+
+/-- the specification map follows the foreground writes -/
+def DB.specStep (d : DB) (m : Lsm.Spec) : DAct → Lsm.Spec
+  | .fg a => Lsm.specStep m d.s.seq a
+  | _ => m
+
+def DB.run (d : DB) (m : Lsm.Spec) : List DAct → Option (DB × Lsm.Spec)
+  | [] => some (d, m)
+  | a :: as => match d.step a with
+    | some d' => DB.run d' (d.specStep m a) as
+    | none => none
+
+/-- side condition of a step: the oracle answers of a `Compact` call are sane (trigger ≥ 1, thresholds ≥ 0) -/
+def DB.actOK (d : DB) : DAct → Prop
+  | .compactBegin o => OracleSane d.c d.s.levels o
+  | _ => True
+
+def DB.runOK (d : DB) : List DAct → Prop
+  | [] => True
+  | a :: as => d.actOK a ∧ match d.step a with
+    | some d' => DB.runOK d' as
+    | none => True
+
+/-- the DKV actions of a history with everything the compaction task does erased -/
+def foreground : List DAct → List Lsm.Act
+  | [] => []
+  | .fg a :: as => a :: foreground as
+  | _ :: as => foreground as
+
+/-- a history of the DKV system with its compaction commits erased -/
+def dropCompactions (as : List Lsm.Act) : List Lsm.Act := as.filter (fun a => !isCompact a)
+
+/-- sequence numbers separate the containers in time: everything in an older level-0 table or memtable is numbered
+below everything in a newer one (level 0 in insertion order, then the memtables oldest first) -/
+def ChronSep (s : Lsm.State) : Prop :=
+  ((s.levels.headD []).map (·.run) ++ s.mems).Pairwise (fun older newer => ∀ e ∈ older, ∀ e' ∈ newer, e.seq < e'.seq)
 
 end Rxn.Compaction
